@@ -24,6 +24,8 @@ func init() {
 			"two fields are treated as the same field only when name, alias, absence of selections, arguments and directives agree, and a selection is removed only on that verdict after its defer information was merged. " +
 			"It does not decide exec(norm(q)) == exec(q), validity preservation or idempotence (value level).",
 		Mutants: []Mutant{
+			{Name: "a variable's default is searched among the definitions of all operations of the document (reverts the F67 fix)", File: "v2/pkg/ast/ast_val_variable_value.go", Rule: "C03-R13", Key: "Document.GetVariableBooleanValue/variable-definitions-per-operation",
+				Old: "\t\tfor _, i := range d.OperationDefinitions[node.Ref].VariableDefinitions.Refs {\n", New: "\t\tfor i := range d.VariableDefinitions {\n"},
 			{Name: "an extracted variable is reused when named type and outer nullability agree (seeded change C03-1)", File: "v2/pkg/astnormalization/variables_extraction.go", Rule: "C03-R11", Key: "variablesExtractionVisitor.extractedVariablesContainsKey/reuse-needs-deep-type-equality",
 				Old: "v.definition.TypesAreEqualDeep(typeRef, v.extractedVariableTypeRefs[i])", New: "v.definition.TypeIsNonNull(typeRef) == v.definition.TypeIsNonNull(v.extractedVariableTypeRefs[i]) && bytes.Equal(v.definition.ResolveTypeNameBytes(typeRef), v.definition.ResolveTypeNameBytes(v.extractedVariableTypeRefs[i]))"},
 			{Name: "deep type equality compares outer nullability, list depth and name (seeded change C03-22)", File: "v2/pkg/ast/ast_type.go", Rule: "C03-R12", Key: "Document.TypesAreEqualDeep/level-by-level",
@@ -88,6 +90,7 @@ func runC03(r *fw.Run) {
 	r.Rule("C03-R10", "for every node kind whose directive list a visitor may shrink (ast.Document.RemoveDirectiveFromNode), the Walker's loop over that list re-reads it on every step instead of ranging over a captured slice header")
 	walkerRereadsShrinkableLists(r, "C03-R10")
 	c03VariableReuseNeedsDeepTypeEquality(r)
+	c03VariableDefinitionsLookedUpPerOperation(r)
 
 	r.Rule("C03-R9", "normalization runs before validation: in astnormalization and package ast the ref of an ast.Value is handed to an accessor of kind K (doc.<K>Value…(v.Ref), doc.<K>Values[v.Ref]) only where v.Kind is known to be K (equality or switch clause on the same value, a boolean local defined from it, or every caller of an unexported helper); VariableDefinition.VariableValue is a variable by construction")
 	nKR := kindRefAgreement(r, "C03-R9", []string{"astnorm", "ast"}, nil)
@@ -717,4 +720,56 @@ func c03VariableReuseNeedsDeepTypeEquality(r *fw.Run) {
 			target.Name()+" does not compare the two types level by level: inner nullability or the order of list and non-null wrappers is not compared, so [Int!] and [Int] (or [[T]!] and [[T!]]) count as equal and one extracted variable is shared between positions of different types")
 	}
 	r.Expect("C03-R12", "deep type equalities used for variable re-use", nDeep, 1)
+}
+
+// c03VariableDefinitionsLookedUpPerOperation (R13): variables are scoped to their operation. Document.VariableDefinitions is
+// the storage of the definitions of *all* operations of the document — also of those that were removed because another
+// operation was selected (only their root nodes are marked) — and two operations may declare the same name with
+// different defaults or types. A search for a variable definition by name therefore goes through the Refs of an
+// operation's VariableDefinitions list; in packages ast and astnormalization no loop ranges over the document-wide
+// Document.VariableDefinitions slice and compares definition names (directly or through the name accessors).
+func c03VariableDefinitionsLookedUpPerOperation(r *fw.Run) {
+	p := r.Prog
+	r.Rule("C03-R13", "a variable definition is searched by name only among the definitions of an operation (OperationDefinition.VariableDefinitions.Refs), never by ranging over the document-wide Document.VariableDefinitions slice, which also holds the definitions of sibling and removed operations")
+	nRefs, n := 0, 0
+	for _, alias := range []string{"ast", "astnorm"} {
+		for _, fi := range p.Funcs(alias) {
+			info := fi.Info()
+			fw.WalkAll(fi.Decl.Body, func(nd ast.Node) bool {
+				rs, ok := nd.(*ast.RangeStmt)
+				if !ok {
+					return true
+				}
+				// per-operation iteration (the accepted form) is counted for the evidence
+				if fw.IsFieldSel(info, rs.X, "ast", "VariableDefinitionList", "Refs") {
+					nRefs++
+					return true
+				}
+				if !fw.IsFieldSel(info, rs.X, "ast", "Document", "VariableDefinitions") {
+					return true
+				}
+				// does the body compare a definition's name?
+				byName := false
+				fw.WalkAll(rs.Body, func(m ast.Node) bool {
+					if c, isCall := m.(*ast.CallExpr); isCall {
+						if fn := fw.Callee(info, c); fn != nil && strings.HasPrefix(fn.Name(), "VariableDefinitionName") {
+							byName = true
+						}
+					}
+					if sel, isSel := m.(*ast.SelectorExpr); isSel && fw.IsFieldSel(info, sel, "ast", "VariableValue", "Name") {
+						byName = true
+					}
+					return true
+				})
+				if !byName {
+					return true
+				}
+				n++
+				r.Fail("C03-R13", fi.Name()+"/variable-definitions-per-operation", p.Pos(rs.Pos()), fi.Name()+" searches a variable definition among the definitions of one operation",
+					fi.Name()+" ranges over Document.VariableDefinitions — the definitions of every operation of the document, removed ones included — and compares names: with `query A($hide: Boolean! = true) {…} query B($hide: Boolean! = false) {…}` and operation B selected, the default of A's $hide decides B's @skip/@include")
+				return true
+			})
+		}
+	}
+	r.Check(nRefs >= 1, "C03-R13", "per-operation-iterations", "", "iterations over the variable definitions of one operation found ("+itoa(nRefs)+"); document-wide by-name searches: "+itoa(n), "no iteration over OperationDefinition.VariableDefinitions.Refs was recognised: the rule no longer sees how definitions are looked up")
 }
